@@ -38,9 +38,12 @@ def XTable.merge (x y : XTable) : XTable :=
 
 def insertSorted (k : Nat) (v : XEntry) : XTable → XTable
   | [] => [(k, v)]
-  | (k', v') :: rest => if k ≤ k' then (k, v) :: (k', v') :: rest else (k', v') :: insertSorted k v rest
+  | (k', v') :: rest =>
+    if k < k' then (k, v) :: (k', v') :: rest
+    else if k = k' then (k, v) :: rest                 -- a map has one binding per key
+    else (k', v') :: insertSorted k v rest
 
-/-- ascending key order (BTreeMap iteration) -/
+/-- ascending key order (BTreeMap iteration); of several bindings of a key the first (valid) one -/
 def XTable.sorted (x : XTable) : XTable := x.foldr (fun (k, v) acc => insertSorted k v acc) []
 
 def XTable.maxId (x : XTable) : Nat := x.foldl (fun m (k, _) => max m k) 0
@@ -578,29 +581,48 @@ def derefL (os : LObjects) : Nat → Obj → Option Obj
     | none => none
   | _, o => some o
 
-/-- one block of object-stream members: the container's id and its (id, object) pairs -/
-abbrev Block := ObjId × List (ObjId × Obj)
+/-- one block of object-stream members: the number under which the cross-reference table lists
+the container, and the container's (id, object) pairs -/
+abbrev Block := Nat × List (ObjId × Obj)
 
-/-- the final merge of `Reader::read`: members of object streams are added block by block,
-`entry(id).or_insert(..)` — never replacing an object that is already there. -/
+/-- `entry(id).or_insert(..)` over the blocks in the given order — never replacing an object that
+is already there. -/
 def mergeBlocks (os : LObjects) (blocks : List Block) : LObjects :=
   (blocks.map (·.2)).flatten.foldl (fun (acc : LObjects) (p : ObjId × Obj) =>
     match acc.get p.1 with | some _ => acc | none => acc ++ [(p.1, .plain p.2)]) os
 
 def insertBlockSorted (b : Block) : List Block → List Block
   | [] => [b]
-  | b' :: rest => if idLe b.1 b'.1 then b :: b' :: rest else b' :: insertBlockSorted b rest
+  | b' :: rest => if b.1 ≤ b'.1 then b :: b' :: rest else b' :: insertBlockSorted b rest
 
-/-- blocks in container-id order (the canonical order of hook H1), stable -/
+/-- blocks in container order (`sort_by_key`, stable) -/
 def sortBlocks (bs : List Block) : List Block := bs.foldr insertBlockSorted []
 
-/-- apply a merge order given as indices into the sorted blocks; unnamed blocks follow -/
+/-- the cross-reference table does not place the current version of `id` in ANOTHER container -/
+def xrefAllows (x : XTable) (cont : Nat) (id : ObjId) : Bool :=
+  match x.get id.1 with
+  | some (.compressed c _) => c == cont
+  | _ => true
+
+def filterBlock (x : XTable) (b : Block) : Block := (b.1, b.2.filter fun p => xrefAllows x b.1 p.1)
+
+/-- the final merge of `Reader::read`: the members arrive block by block in the order in which the
+worker threads finished (`arrived`); they are sorted by container, members whose current version
+the cross-reference table places in another container are skipped, the rest is `or_insert`ed. -/
+def mergeBlocksX (x : XTable) (os : LObjects) (arrived : List Block) : LObjects :=
+  mergeBlocks os ((sortBlocks arrived).map (filterBlock x))
+
+/-- hook H1 (`verif_hooks::reorder_blocks`): the blocks named by `order` (indices into the
+container-sorted blocks; a slot is taken at most once), then the blocks not named -/
+def permuteGo (slots : List (Option Block)) : List Nat → List Block
+  | [] => slots.filterMap id
+  | i :: rest =>
+    match slots[i]? with
+    | some (some b) => b :: permuteGo (slots.set i none) rest
+    | _ => permuteGo slots rest
+
 def permuteBlocks (bs : List Block) (order : List Nat) : List Block :=
-  let sorted := sortBlocks bs
-  let named := order.filterMap fun i => sorted[i]?
-  let usedIdx := order
-  let restB := (sorted.zipIdx.filter fun (_, i) => !usedIdx.contains i).map (·.1)
-  named ++ restB
+  permuteGo ((sortBlocks bs).map some) order
 
 /-- one step of the object-loading pass of `Reader::read`: read the object of an in-use entry
 (container objects also contribute a block of members) -/
@@ -618,7 +640,7 @@ def loadStep (buf : Bytes) (x : XTable) (nEntries : Nat) (acc : Outcome (LObject
            | .plain (.stream d c) =>
              if Dict.getTypeIs d OBJSTM then
                (match objStmObjects d c with
-                | .ok objs => .ok (os.insert id lo, fromStm ++ [(id, objs)])
+                | .ok objs => .ok (os.insert id lo, fromStm ++ [(e.1, objs)])
                 | .err "ext" => .err "ext"
                 | .err _ => .ok (os, fromStm)       -- `ObjectStream::new(..).ok()?` drops the container too
                 | .panic s => .panic s)
@@ -627,9 +649,9 @@ def loadStep (buf : Bytes) (x : XTable) (nEntries : Nat) (acc : Outcome (LObject
      | .compressed _ _ => .ok (os, fromStm))
   | o => o
 
-/-- `Reader::read`; `order = none`: blocks in the order the sequential reader appends them
-(ascending cross-reference key); `some p`: the order chosen through hook H1 -/
-def loadDocOrd (order : Option (List Nat)) (file : Bytes) : Outcome Loaded :=
+/-- `Reader::read`; `arr` is the schedule: it maps the blocks in the order the sequential reader
+appends them (ascending cross-reference key) to the order in which they arrive -/
+def loadDocWith (arr : List Block → List Block) (file : Bytes) : Outcome Loaded :=
   let offset := match findFrom PDF_KW (file.length + 1) file 0 with | some i => i | none => 0
   let buf := file.drop offset
   match pHeader buf with
@@ -667,9 +689,9 @@ def loadDocOrd (order : Option (List Nat)) (file : Bytes) : Outcome Loaded :=
           | .panic s => .panic s
           | .err e => .err e
           | .ok (os, fromStm) =>
-            -- object-stream members never replace an object already loaded; the first one wins
-            let blocks := match order with | none => fromStm | some p => permuteBlocks fromStm p
-            let os1 := mergeBlocks os blocks
+            -- object-stream members never replace an object already loaded
+            let arrived := arr fromStm
+            let os1 := mergeBlocksX x os arrived
             -- zero-length streams: read the content through the (now known) Length
             let fin := os1.map fun (p : ObjId × LObj) =>
               match p.2 with
@@ -689,6 +711,10 @@ def loadDocOrd (order : Option (List Nat)) (file : Bytes) : Outcome Loaded :=
             let objects := fin.foldr (fun (p : ObjId × Obj) acc => insertSortedO p.1 p.2 acc) []
             .ok { version := version, binaryMark := mark, trailer := tr, objects := objects,
                   maxId := size - 1, xrefStart := xs }
+
+/-- `order = none`: the sequential order; `some p`: the arrival order chosen through hook H1 -/
+def loadDocOrd (order : Option (List Nat)) (file : Bytes) : Outcome Loaded :=
+  loadDocWith (match order with | none => id | some p => fun bs => permuteBlocks bs p) file
 
 def loadDoc (file : Bytes) : Outcome Loaded := loadDocOrd none file
 
